@@ -8,14 +8,74 @@ import QModel.C14
 -/
 namespace QM.C14
 
+/-! ## the generated pieces (QGen.C14) mean what the theorems assume: a source edit breaks exactly these -/
+
+theorem hit_iff (u c : Rat) : QGen.C14.hit u c = true ↔ u < c := by simp [QGen.C14.hit]
+theorem cumStart_eq : QGen.C14.cumStart = 0 := rfl
+theorem fallThrough_eq (n : Int) : QGen.C14.fallThrough n = n - 1 := rfl
+
+theorem r2dLoop_nil (u cum : Rat) (idx : Nat) : r2dLoop [] u cum idx = none := rfl
+theorem r2dLoop_cons (p : Rat) (ps : List Rat) (u cum : Rat) (idx : Nat) :
+    r2dLoop (p :: ps) u cum idx = if u < cum + p then some idx else r2dLoop ps u (cum + p) (idx + 1) := by
+  simp only [r2dLoop]
+  by_cases h : u < cum + p
+  · rw [if_pos h, if_pos ((hit_iff _ _).2 h)]
+  · rw [if_neg h, if_neg (fun hh => h ((hit_iff _ _).1 hh))]
+
+theorem randomNumberToData_def (probs : List Rat) (u : Rat) :
+    randomNumberToData probs u = match r2dLoop probs u 0 0 with
+      | some i => (i : Int)
+      | none => (probs.length : Int) - 1 := by
+  unfold randomNumberToData
+  rw [cumStart_eq]
+  cases r2dLoop probs u 0 0 <;> simp [fallThrough_eq]
+
+theorem toStream_none {G : Type} (P : PRNG G) : toStream P .none = .glob := rfl
+theorem toStream_int {G : Type} (P : PRNG G) (s : Int) : toStream P (.int s) = .fresh (P.seed s) := rfl
+theorem toStream_gen {G : Type} (P : PRNG G) (k : Nat) : toStream P (.gen k) = .held k := rfl
+
+theorem empiLoop_nil (m len index : Nat) (freq : List Nat) (next : Int) (pos : Nat) (rest : List Int)
+    (acc : List (Int × List Rat)) : empiLoop m len [] index freq next pos rest acc = .ok acc.reverse := rfl
+
+/-- the loop body with the generated tests spelled out (this is where an edited comparison / offset shows) -/
+theorem empiLoop_cons (m len : Nat) (d : Int) (ds : List Int) (index : Nat) (freq : List Nat) (next : Int) (pos : Nat)
+    (rest : List Int) (acc : List (Int × List Rat)) :
+    empiLoop m len (d :: ds) index freq next pos rest acc =
+      if ¬ (0 ≤ d ∧ d < (m : Int)) then .error (.dataOutOfRange index)
+      else
+        let freq' := bump freq d.toNat
+        if ((index : Int) + 1) = next then
+          let acc' := (next, freq'.map fun (c : Nat) => ((c : Int) : Rat) / (((index + 1 : Nat) : Int) : Rat)) :: acc
+          match rest with
+          | [] => .ok acc'.reverse
+          | n2 :: rest' =>
+            if n2 > (len : Int) then .error (.numSumTooLarge (pos + 1))
+            else if next ≥ n2 then .error (.notIncreasing (pos + 1))
+            else empiLoop m len ds (index + 1) freq' n2 (pos + 1) rest' acc'
+        else empiLoop m len ds (index + 1) freq' next pos rest acc := by
+  simp only [empiLoop, QGen.C14.empiInRange, QGen.C14.empiHit, QGen.C14.empiDiv, QGen.C14.empiTooLarge,
+    QGen.C14.empiNotIncreasing, Bool.not_eq_true', decide_eq_false_iff_not, decide_eq_true_eq]
+  cases rest <;> rfl
+
+theorem calcEmpiDistSequence_def (measurementNum : Int) (data : List Int) (numSums : List Int) :
+    calcEmpiDistSequence measurementNum data numSums =
+      if measurementNum < 0 then .error .negativeMeasurementNum
+      else match numSums with
+        | [] => .ok []
+        | n0 :: rest =>
+          if n0 > (data.length : Int) then .error (.numSumTooLarge 0)
+          else empiLoop measurementNum.toNat data.length data 0 (List.replicate measurementNum.toNat 0) n0 0 rest [] := by
+  simp only [calcEmpiDistSequence, QGen.C14.empiNegative, QGen.C14.empiTooLarge, decide_eq_true_eq]
+  cases numSums <;> rfl
+
 /-! ## inversion loop -/
 
 theorem r2dLoop_lt (ps : List Rat) (u cum : Rat) (idx i : Nat) (h : r2dLoop ps u cum idx = some i) :
     idx ≤ i ∧ i < idx + ps.length := by
   induction ps generalizing cum idx with
-  | nil => simp [r2dLoop] at h
+  | nil => simp [r2dLoop_nil] at h
   | cons p t ih =>
-    simp only [r2dLoop] at h
+    simp only [r2dLoop_cons] at h
     split at h
     · injection h with h; subst h; simp
     · have := ih _ _ h
@@ -27,9 +87,9 @@ theorem r2dLoop_some_iff (ps : List Rat) (u cum : Rat) (idx i : Nat) :
       ∃ k, i = idx + k ∧ k < ps.length ∧ u < cum + (ps.take (k + 1)).sum ∧
         ∀ j < k, cum + (ps.take (j + 1)).sum ≤ u := by
   induction ps generalizing cum idx with
-  | nil => simp [r2dLoop]
+  | nil => simp [r2dLoop_nil]
   | cons p t ih =>
-    simp only [r2dLoop]
+    simp only [r2dLoop_cons]
     split
     · rename_i hlt
       constructor
@@ -90,9 +150,9 @@ theorem sum_take_le_sum (ps : List Rat) (hnn : ∀ p ∈ ps, 0 ≤ p) (a : Nat) 
 theorem r2dLoop_none_iff (ps : List Rat) (hnn : ∀ p ∈ ps, 0 ≤ p) (u cum : Rat) (idx : Nat) (hcu : cum ≤ u) :
     r2dLoop ps u cum idx = none ↔ cum + ps.sum ≤ u := by
   induction ps generalizing cum idx with
-  | nil => simp [r2dLoop, hcu]
+  | nil => simp [r2dLoop_nil, hcu]
   | cons p t ih =>
-    simp only [r2dLoop, List.sum_cons]
+    simp only [r2dLoop_cons, List.sum_cons]
     have hp := hnn p (by simp)
     have ht : 0 ≤ t.sum := List.sum_nonneg (fun x hx => hnn x (by simp [hx]))
     split
@@ -180,7 +240,7 @@ theorem empiLoop_spec (m : Nat) (data : List Int) :
     subst hd; simp at hle; omega
   | cons d ds ih =>
     intro pre next pos rest acc out hd hlt hle h
-    simp only [empiLoop] at h
+    simp only [empiLoop_cons] at h
     split at h
     · cases h
     · rename_i hrange
@@ -386,7 +446,7 @@ theorem empiLoop_ok_valid (m len : Nat) :
   | cons d ds ih =>
     intro index freq next pos rest acc out hl h1 h2 h
     simp only [List.length_cons] at hl
-    simp only [empiLoop] at h
+    simp only [empiLoop_cons] at h
     split at h
     · cases h
     · rename_i hr
@@ -458,7 +518,7 @@ theorem empiLoop_valid_ok (m len : Nat) :
         rw [List.take_succ_cons]
         rw [show (lastD next rest).toNat - (index + 1) = k by omega] at hx
         exact List.mem_cons_of_mem _ hx
-    simp only [empiLoop]
+    simp only [empiLoop_cons]
     have hd' : 0 ≤ d ∧ d < (m : Int) := hd
     rw [if_neg (not_not.2 hd')]
     split
@@ -486,10 +546,10 @@ theorem empiLoop_error_sound (m len : Nat) :
       (∃ k a b, e = .notIncreasing (pos + 1 + k) ∧ (next :: rest)[k]? = some a ∧ rest[k]? = some b ∧ a ≥ b) := by
   intro ds
   induction ds with
-  | nil => intro index freq next pos rest acc e h; simp [empiLoop] at h
+  | nil => intro index freq next pos rest acc e h; simp [empiLoop_nil] at h
   | cons d ds ih =>
     intro index freq next pos rest acc e h
-    simp only [empiLoop] at h
+    simp only [empiLoop_cons] at h
     split at h
     · rename_i hr
       injection h with h; subst h
@@ -553,9 +613,21 @@ theorem empiLoop_never (m len : Nat) :
   | cons d ds ih =>
     intro index freq next pos rest acc h hr
     have hd : 0 ≤ d ∧ d < (m : Int) := hr d (by simp)
-    simp only [empiLoop]
+    simp only [empiLoop_cons]
     rw [if_neg (not_not.2 hd), if_neg (by omega)]
     exact ih (index + 1) _ next pos rest acc (by push_cast; omega) (fun x hx => hr x (by simp [hx]))
+
+
+
+
+theorem head_le_of_increasing (a : Int) (l : List Int) (h : Increasing (a :: l)) : ∀ n ∈ a :: l, a ≤ n := by
+  induction l generalizing a with
+  | nil => intro n hn; simp at hn; omega
+  | cons b t ih =>
+    intro n hn
+    rcases List.mem_cons.1 hn with rfl | hn
+    · omega
+    · have := ih b h.2 n hn; have := h.1; omega
 
 
 end QM.C14
